@@ -119,7 +119,8 @@ WLen(q, vs) == IF Len(vs) <= Len(q) THEN Len(vs) ELSE Len(q)
 WriteThrough(q, vs) == [i \in 1..Len(q) |-> IF i <= Len(vs) THEN vs[i] ELSE q[i]]
 OpsB(b) ==
   LET cap == BCap(b) IN
-     {[ev |-> "push", a |-> [v |-> New(0)]], [ev |-> "pop", a |-> [x |-> 0]], [ev |-> "views", a |-> [x |-> 0]]}
+     {[ev |-> "push", a |-> [v |-> New(0)]], [ev |-> "pop", a |-> [x |-> 0]], [ev |-> "views", a |-> [x |-> 0]],
+      [ev |-> "clone", a |-> [x |-> 0]]}
   \cup {[ev |-> e, a |-> [i |-> i]] : e \in {"get", "index"}, i \in 0..cap}
   \cup {[ev |-> e, a |-> [i |-> i, v |-> New(1)]] : e \in {"get_mut", "index_mut"}, i \in 0..cap}
   \cup {[ev |-> "drain", a |-> [k |-> k]] : k \in 0..(b.len + 1)}
@@ -130,7 +131,7 @@ BIdx(a) == IF a.i < 0 THEN 2000000000 ELSE a.i    \* i = -1 encodes usize::MAX (
 ApplyB(b, op) == \* layer 2
   CASE op.ev = "push"  -> BPush(b, op.a.v)
     [] op.ev = "pop"   -> BPop(b)
-    [] op.ev = "views" -> [ret |-> Unit, b |-> b]
+    [] op.ev \in {"views", "clone"} -> [ret |-> Unit, b |-> b]   \* a clone is the same queue (same raw parts)
     [] op.ev = "get"   -> [ret |-> BGet(b, BIdx(op.a)), b |-> b]
     [] op.ev = "index" -> [ret |-> IF BIdx(op.a) >= b.len THEN Panic ELSE BGet(b, BIdx(op.a)), b |-> b]
     [] op.ev = "get_mut" -> IF BIdx(op.a) >= b.len THEN [ret |-> None, b |-> b]
@@ -150,7 +151,7 @@ ApplyB(b, op) == \* layer 2
 IdealB(q, cap, op) == \* layer 1
   CASE op.ev = "push"  -> QPush(q, cap, op.a.v)
     [] op.ev = "pop"   -> QPop(q)
-    [] op.ev = "views" -> [ret |-> Unit, q |-> q]
+    [] op.ev \in {"views", "clone"} -> [ret |-> Unit, q |-> q]
     [] op.ev = "get"   -> [ret |-> QGet(q, BIdx(op.a)), q |-> q]
     [] op.ev = "index" -> [ret |-> IF BIdx(op.a) >= Len(q) THEN Panic ELSE QGet(q, BIdx(op.a)), q |-> q]
     [] op.ev = "get_mut" -> IF BIdx(op.a) >= Len(q) THEN [ret |-> None, q |-> q]
@@ -171,7 +172,7 @@ UsizeMaxMod(n) == (Pow2Mod(64, n) + n - 1) % n          \* (2^64 - 1) mod n
 IdxVal(a, n) == IF a.i = -1 THEN UsizeMaxMod(n) ELSE a.i      \* i = -1 encodes usize::MAX
 OpsF(f) ==
   LET n == FLen(f) IN
-     {[ev |-> "push", a |-> [v |-> New(0)]], [ev |-> "views", a |-> [x |-> 0]]}
+     {[ev |-> "push", a |-> [v |-> New(0)]], [ev |-> "views", a |-> [x |-> 0]], [ev |-> "clone", a |-> [x |-> 0]]}
   \cup {[ev |-> e, a |-> [i |-> i]] : e \in {"get", "index", "set_first"}, i \in (0..(2 * n)) \cup {-1}}
   \cup {[ev |-> e, a |-> [i |-> i, v |-> New(1)]] : e \in {"get_mut", "index_mut"}, i \in (0..(2 * n)) \cup {-1}}
   \cup {[ev |-> e, a |-> [vs |-> Seq1(n)]] : e \in {"iter_mut", "slices_mut"}}
@@ -180,7 +181,7 @@ OpsF(f) ==
 ApplyF(f, op) ==
   LET n == FLen(f) IN
   CASE op.ev = "push"  -> LET r == FPush(f, op.a.v) IN [ret |-> Some(r.ret), f |-> r.f]
-    [] op.ev = "views" -> [ret |-> Unit, f |-> f]
+    [] op.ev \in {"views", "clone"} -> [ret |-> Unit, f |-> f]
     [] op.ev \in {"get", "index"} -> [ret |-> Some(FGet(f, IdxVal(op.a, n))), f |-> f]
     [] op.ev \in {"get_mut", "index_mut"} ->
          [ret |-> Some(FGet(f, IdxVal(op.a, n))), f |-> FSetAt(f, IdxVal(op.a, n), op.a.v)]
@@ -194,7 +195,7 @@ ApplyF(f, op) ==
 IdealF(q, first, op) == \* set_first names an absolute slot, so layer 1 needs `first` for it
   LET n == Len(q) IN
   CASE op.ev = "push"  -> LET r == DPush(q, op.a.v) IN [ret |-> Some(r.ret), q |-> r.q]
-    [] op.ev = "views" -> [ret |-> Unit, q |-> q]
+    [] op.ev \in {"views", "clone"} -> [ret |-> Unit, q |-> q]
     [] op.ev \in {"get", "index"} -> [ret |-> Some(DGet(q, IdxVal(op.a, n))), q |-> q]
     [] op.ev \in {"get_mut", "index_mut"} ->
          [ret |-> Some(DGet(q, IdxVal(op.a, n))), q |-> DSet(q, IdxVal(op.a, n), op.a.v)]
